@@ -46,7 +46,7 @@ CONSTANTS
   MaxFaults,   \* bound on Kill / Stall / Drop actions in a behaviour
   FaultKinds,  \* subset of {"kill", "stall", "drop"}
   Victims,     \* filters that may be killed / stalled
-  ExitAt,      \* [Filters -> Int]  the filter ends itself in the process() call that sees original frame ExitAt (-1: never)
+  ExitAt,      \* [Filters -> Int]  the filter ends itself in the first process() call that sees original frame ExitAt or a later one (-1: never)
   ExitKind,    \* [Filters -> {"clean", "error"}]  by exit() or by raising
   PropExit,    \* [Filters -> SUBSET {"clean", "error"}]  prop_exit policy: which kinds of its own ending it announces
   ObeyExit,    \* [Filters -> SUBSET {"clean", "error"}]  obey_exit policy: which announced kinds make it end too
@@ -510,7 +510,7 @@ RFinal(f, phase, back) ==
 Proc(f) ==
   /\ pc[f] = "proc"
   /\ LET r == ProcFn(f, Seen(f, mq[f].inp))
-     IN IF ExitAt[f] >= 0 /\ KeyQ(Seen(f, mq[f].inp)) = ExitAt[f]
+     IN IF ExitAt[f] >= 0 /\ KeyQ(Seen(f, mq[f].inp)) >= ExitAt[f]
         THEN \* process() calls exit() / raises: the filter ends (the frames in hand are dropped)
              /\ mq' = [mq EXCEPT ![f].has = FALSE, ![f].inp = EmptyF, ![f].frames = EmptyF]
              /\ Terminate(f, ExitKind[f], reqq, pubq)
@@ -520,7 +520,7 @@ Proc(f) ==
              /\ pc' = [pc EXCEPT ![f] = IF Beh[f].slow THEN "work_r" ELSE "r_enter"]
         ELSE /\ mq' = [mq EXCEPT ![f].inp = EmptyF, ![f].frames = r.frames]
              /\ pc' = [pc EXCEPT ![f] = IF Beh[f].slow THEN "work_s" ELSE "s_enter"]
-  /\ IF ExitAt[f] >= 0 /\ KeyQ(Seen(f, mq[f].inp)) = ExitAt[f] THEN TRUE ELSE UNCHANGED <<pubq, reqq>>
+  /\ IF ExitAt[f] >= 0 /\ KeyQ(Seen(f, mq[f].inp)) >= ExitAt[f] THEN TRUE ELSE UNCHANGED <<pubq, reqq>>
   /\ lbl' = <<"int", f, 0>>
   /\ UNCHANGED <<minSend, clients, sl, prevId, rmin, rbal, rsrc, oseq, subq, pullq, linkUp, inc, stalled,
                  nfaults, gvars>>
